@@ -295,6 +295,61 @@ def unit_collision(U):
                         p.pc, z3.And(*goals) if goals else z3.BoolVal(True), {}, replay=replay)
 
 
+def unit_collision_each(U):
+    """every collision of one import is resolved with the CONFIGURED strategy: two colliding lines in one call, the first of
+    which falls back to another final strategy (merge -> create_unique): _do_merge is asked with self.merge_strategy both times"""
+    for cls, fmt in ((C._GFFDBCreator, "gff"), (C._GTFDBCreator, "gtf")):
+        it = _interp()
+
+        def run(ctx, cls=cls):
+            feats = []
+            for nm in ("f1", "f2"):
+                fid, _ = IM.sval(nm + ".ID")
+                attrs = {"ID": [fid]} if cls is C._GFFDBCreator else {"gene_id": [IM.sval(nm + ".g")[0]], "transcript_id": [IM.sval(nm + ".t")[0]], "ID": [fid]}
+                feats.append(IM.sym_feature(nm, attrs)[0])
+
+            def on_execute(cur, q, a):
+                st = Q.parse(q)
+                if st.kind == "insert" and IM.insert_info(st.node)[0] == "features":
+                    # attempts: f1 (collides), f1 under its fresh key (goes in), f2 (collides)
+                    state["n"] = state.get("n", 0) + 1
+                    if state["n"] in (1, 3):
+                        raise sqlite3.IntegrityError("UNIQUE constraint failed: features.id")
+            state = {}
+            asked = []
+
+            def do_merge(interp, a, k):
+                strategy = a[2] if len(a) > 2 else k.get("merge_strategy")
+                asked.append(strategy)
+                f = a[1]
+                if len(asked) == 1:
+                    f.id = SStr(list(SStr.of(f.id).atoms) + [Lit("_1")])       # filed under a fresh key
+                    return f, "create_unique"
+                return f, "merge"
+            it.contracts[C._DBCreator._do_merge] = do_merge
+            cr = IM.blank_creator(cls, ghostdb.GhostConn(on_execute=on_execute), id_spec="ID", merge_strategy="merge", counters=IM.SymMap("cnt"))
+            it.call(cls._populate_from_lines, [cr, feats], {})
+            return asked
+
+        def replay(m, fmt=fmt):
+            # (a) same key, other coordinates -> filed as k_1; then (b) same key and columns as the stored one, new attribute -> merged
+            if fmt == "gff":
+                mk = lambda i, s, **a: mkfeat(i, ft="exon", start=s, **a)
+                first = [mkfeat("e1", ft="exon", start=1, Name="n0"), mkfeat("e2", ft="exon", start=1, Name="n0")]
+                later = [mkfeat("e1", ft="exon", start=3, Name="other"), mkfeat("e2", ft="exon", start=1, Note="merged_in")]
+                db = gffutils.create_db([copy_feature(f) for f in first], ":memory:", id_spec="ID")
+                db.update([copy_feature(f) for f in later], merge_strategy="merge", make_backup=False)
+                ids = sorted(f.id for f in db.all_features())
+                note = list(db["e2"].attributes.get("Note", []))
+                exp = [["e1", "e1_1", "e2"], ["merged_in"]]
+                return {"inputs": {"create_db": [str(f) for f in first], "then update(merge_strategy='merge')": [str(f) for f in later]}, "expected": exp, "observed": [ids, note], "violates": [ids, note] != exp}
+            return {"violates": False, "note": "no native replay for the GTF importer"}
+        for p in U.explore(run, it):
+            ok = p.kind == "return" and list(p.value) == ["merge", "merge"]
+            U.prove("C05.%s.collision.strategy_each#p%d" % (fmt, p.index), "each of two collisions in one import is resolved with the configured merge_strategy (whatever the final strategy of the earlier one was)",
+                    [], z3.BoolVal(bool(ok)), {}, replay=replay)
+
+
 def _update_is_row(e, f):
     """UPDATE features SET <12 cols = ?> WHERE id = ?  with args == astuple(f) + [f.id]"""
     node = e.stmt.node
@@ -821,7 +876,7 @@ def unit_bounded_explicit(U):
     U.bounded_result("C05.bounded.explicit_generated_key", "create_unique/merge keep all features even when an explicit id equals a generated key", "lines k, k_1, k x 2 strategies", 2, fails, exhaustive=True)
 
 
-UNITS = [("bounded.explicit", unit_bounded_explicit), ("do_merge", unit_do_merge), ("candidates", unit_candidates), ("merge_candidate", unit_merge_candidate), ("get_feature", unit_get_feature), ("collision_merge", unit_collision_merge), ("merge_no_candidate", unit_merge_no_candidate), ("collision", unit_collision), ("init", unit_init), ("bounded.merge", unit_bounded_merge), ("bounded.force_fields", unit_bounded_force_fields)]
+UNITS = [("bounded.explicit", unit_bounded_explicit), ("do_merge", unit_do_merge), ("candidates", unit_candidates), ("merge_candidate", unit_merge_candidate), ("get_feature", unit_get_feature), ("collision_merge", unit_collision_merge), ("merge_no_candidate", unit_merge_no_candidate), ("collision", unit_collision), ("collision_each", unit_collision_each), ("init", unit_init), ("bounded.merge", unit_bounded_merge), ("bounded.force_fields", unit_bounded_force_fields)]
 
 
 def replay_known(entry):
